@@ -180,8 +180,47 @@ def gen_full_shards_schedule(rnd, idn, faults):
     return dict(id=idn, nsh0=rnd.choice([1, 2]), nt=NT, opts=opts, sizes=sizes, steps=st, quietFrom=quiet_from, expectConverge=True)
 
 
+def gen_flap_schedule(rnd, idn):
+    """Directed family (faults): a target fails some scrapes on its shard, a cycle sees that, the target recovers - and
+    then the shard that held it is lost (pod recreated empty, or the StatefulSet shrunk).  The explorer's result for the
+    target is still the healthy one: it has to be placed again."""
+    opts = rnd.choice(DYNAMIC)
+    sizes = [dict(series=rnd.choice([2, 3]), total=rnd.choice([3, 4])) for _ in range(NT)]
+    st = []
+    for t in range(1, NT + 1):
+        st += [step('add', t=t), step('probe', t=t)]
+    nsh0 = rnd.choice([1, 2])
+    st.append(step('cycle'))
+    for i in range(1, nsh0 + 1):
+        st += [step('scrape', i=i)] * 3
+    down = rnd.randint(1, NT)
+    st.append(step('alive', t=down, on=False))
+    for i in range(1, nsh0 + 1):
+        st += [step('scrape', i=i)] * rnd.choice([1, 2])
+    st.append(step('cycle'))                      # the failure is seen (and published)
+    st.append(step('alive', t=down, on=True))
+    k = rnd.random()
+    if k < 0.5:
+        st.append(step('recreate', i=rnd.randint(1, max(nsh0, opts['minShard']))))
+    elif k < 0.8:
+        st.append(step('shrink'))
+    else:
+        st.append(step('recreate', i=1))
+    quiet_from = len(st) + 1
+    for t in range(1, NT + 1):
+        st.append(step('probe', t=t))
+    for r in range(QUIET_ROUNDS):
+        st.append(step('cycle'))
+        for k2 in range(3):
+            for i in range(1, MAXN + 1):
+                st.append(step('scrape', i=i))
+    return dict(id=idn, nsh0=nsh0, nt=NT, opts=opts, sizes=sizes, steps=st, quietFrom=quiet_from, expectConverge=True)
+
+
 def gen_schedule(rnd, idn, faults, handover=False):
     x = rnd.random()
+    if faults and not handover and x > 0.88:
+        return gen_flap_schedule(rnd, idn)
     if handover and x < 0.75:
         # the hand-over property: most runs are moves, and most of the moves meet no other fault
         return gen_transfer_schedule(rnd, idn, faults and rnd.random() < 0.4)
